@@ -188,9 +188,58 @@ class Interp:
             key = (base, e.attr)
             if key in s.heap:
                 out.append((s.heap[key], s))
-            else:
-                out.append((T('attr', base, e.attr), s))
+                continue
+            nt = self._namedtuple_of(base)
+            if nt is not None:
+                ci, fields = nt
+                if e.attr in fields:
+                    out.append((base[2:][fields.index(e.attr)], s))          # c.func on a named tuple = c[2]
+                    continue
+                pr = self.repo.lookup_prop(ci, e.attr) if ci is not None else None
+                if pr and 'get' in pr and len(self.fi_stack) < 12:
+                    for kind, val, s2 in self.call_function(pr['get'], [], {}, s, recv=base):
+                        if kind == 'ok':
+                            out.append((val, s2))
+                    continue
+            out.append((T('attr', base, e.attr), s))
         return out
+
+    def _namedtuple_classes(self):
+        """[(ClassInfo or None, class name, fields)] for `class X(namedtuple('X', fields))` and `X = namedtuple('X', fields)` in the walked function's module."""
+        if not self.fi_stack:
+            return []
+        mod = self.fi_stack[-1].module
+        cache = self.__dict__.setdefault('_nt_cache', {})
+        if mod.rel in cache:
+            return cache[mod.rel]
+
+        def fields_of(call):
+            if isinstance(call, ast.Call) and (dotted(call.func) or '').split('.')[-1] == 'namedtuple' and len(call.args) >= 2:
+                f = call.args[1]
+                if isinstance(f, (ast.Tuple, ast.List)) and all(isinstance(const_value(x), str) for x in f.elts):
+                    return [const_value(x) for x in f.elts]
+                if isinstance(const_value(f), str):
+                    return const_value(f).replace(',', ' ').split()
+            return None
+        out = []
+        for ci in mod.classes.values():
+            for b in ci.node.bases:
+                fs = fields_of(b)
+                if fs:
+                    out.append((ci, ci.name, fs))
+        for name, expr in mod.consts.items():
+            fs = fields_of(expr)
+            if fs:
+                out.append((None, name, fs))
+        cache[mod.rel] = out
+        return out
+
+    def _namedtuple_of(self, term):
+        """The named-tuple class a tuple term can be an instance of (unique by arity in the module), or None."""
+        if not (is_t(term) and term[1] == 'tuple'):
+            return None
+        cands = [(ci, fs) for ci, name, fs in self._namedtuple_classes() if len(fs) == len(term) - 2]
+        return cands[0] if len(cands) == 1 else None
 
     def ev_Subscript(self, e, st):
         out = []
@@ -533,6 +582,16 @@ class Interp:
         return None
 
     def default_call(self, call, name, recv, args, kwargs, st):
+        if recv is None and isinstance(call.func, ast.Name):
+            for ci, cname, fs in self._namedtuple_classes():
+                if cname == call.func.id and not any(is_t(a_) and a_[1] == 'star' for a_ in args) and len(args) + len(kwargs) == len(fs) and set(kwargs) <= set(fs[len(args):]):
+                    return [('ok', T('tuple', *(list(args) + [kwargs[f_] for f_ in fs[len(args):]])), st)]
+        if recv is not None and isinstance(call.func, ast.Attribute) and len(self.fi_stack) < 12:
+            nt = self._namedtuple_of(recv)
+            if nt is not None and nt[0] is not None:
+                m_ = self.repo.lookup_method(nt[0], call.func.attr)
+                if m_ is not None and m_.cls is nt[0]:
+                    return self.call_function(m_, args, kwargs, st, recv=recv)
         if is_t(recv) and recv[1] == 'call' and recv[2] == 'super' and self.fi_stack and self.fi_stack[-1].self_name:
             recv = st.env.get(self.fi_stack[-1].self_name, recv)       # super().m(..) runs on the same object
         # inline repo callees when allowed
@@ -772,6 +831,8 @@ class Interp:
     def truth_of(self, v, st):
         if is_c(v):
             return [(bool(v[1]), st)]
+        if is_t(v) and v[1] == 'call' and v[2] == 'bool' and len(v) == 5:
+            return self.truth_of(v[4], st)           # bool(x) is true exactly when x is
         key = ('truth', v)
         if key in st.facts:
             return [(st.facts[key], st)]
@@ -800,6 +861,10 @@ class Interp:
         """-> list[(bool, state)]"""
         name = type(op).__name__
         if name in ('Is', 'IsNot'):
+            # the result of a repo function that returns a value on every path is not None
+            for a_, b_ in ((l, r), (r, l)):
+                if a_ == C(None) and is_t(b_) and b_[1] == 'call' and isinstance(b_[2], str) and self._never_none(b_[2]):
+                    return [(name == 'IsNot', st)]
             if is_c(l) and is_c(r):
                 b = (l[1] is r[1]) if not (isinstance(l[1], (int, str)) and not isinstance(l[1], bool)) else (l[1] == r[1] and type(l[1]) is type(r[1]))
                 return [(b if name == 'Is' else not b, st)]
@@ -835,6 +900,26 @@ class Interp:
         if opts is None:
             opts = [True, False]
         return [((not b) if flip else b, st.with_fact(key, b)) for b in opts]
+
+    def _never_none(self, fname):
+        """True when `fname` resolves (from the function being walked) to a repo function that ends with `return <expr>` and has no bare / None return and no yield."""
+        cache = self.__dict__.setdefault('_nn_cache', {})
+        key = (self.fi_stack[-1].module.rel if self.fi_stack else None, fname)
+        if key in cache:
+            return cache[key]
+        res = False
+        try:
+            r_ = self.repo.resolve_name(self.fi_stack[-1].module, fname.split('.')[-1]) if self.fi_stack and '.' not in fname else None
+            fi_ = r_[1] if r_ is not None and r_[0] in ('func', 'bound') else None
+            if fi_ is not None:
+                body = fi_.body()
+                rets = fi_.returns()
+                res = bool(body) and isinstance(body[-1], ast.Return) and bool(rets) and not fi_.yields() and \
+                    all(r0.value is not None and not (isinstance(r0.value, ast.Constant) and r0.value.value is None) for r0 in rets)
+        except Exception:
+            res = False
+        cache[key] = res
+        return res
 
     def _tri(self, l, r, st, true_rels):
         """Trichotomy fact on the ordered pair (l, r)."""
